@@ -23,6 +23,8 @@ pub struct Obs {
     /// the injected failure emulates a process stop: every later storage call fails as well
     /// (and, through `stopped`, every later server request)
     pub sticky: bool,
+    /// the next transaction publishes the committed base / unsynced / working set at its start
+    pub probe: bool,
     /// the order in which the most recent `all_tasks()` call enumerated the tasks
     pub last_all_order: Vec<Uuid>,
     pub stopped: Option<std::sync::Arc<std::sync::atomic::AtomicBool>>,
@@ -76,7 +78,20 @@ impl ObsTxn<'_> {
 #[async_trait]
 impl<S: Storage> Storage for ObsStorage<S> {
     async fn txn<'a>(&'a mut self) -> Result<Box<dyn StorageTxn + Send + 'a>, Error> {
-        let inner = self.inner.txn().await?;
+        let mut inner = self.inner.txn().await?;
+        // what a new transaction sees is what is committed: publish it (reads only), so that the
+        // harness observes the stored base version / operations / working set even when they
+        // changed without a commit going through this wrapper
+        if self.obs.lock().unwrap().probe {
+            let base = inner.base_version().await?;
+            let unsynced = inner.unsynced_operations().await?;
+            let working_set = inner.get_working_set().await?;
+            let mut o = self.obs.lock().unwrap();
+            o.base = base;
+            o.unsynced = unsynced;
+            o.working_set = working_set;
+            o.probe = false;
+        }
         Ok(Box::new(ObsTxn {
             inner,
             obs: self.obs.clone(),
